@@ -30,8 +30,7 @@ ASSUMPTIONS = [
     "a leading '+' or '-' on a Python literal is taken as part of the literal (DESIGN C22; -Inf and complex() strings are signed in the docs)",
     "signed imaginary literals are valued by complex(text) (the documented constructor), not by Python's unary minus (which gives real part -0.0)",
     "unspecified by the documentation, weak oracle only (reads as number/symbol/dotted form/Hy syntax error, no other exception): "
-    "+Inf +NaN -NaN; Infinity; inf/nan in another case inside a complex literal; bare j/J; a separator directly after '.' and before the "
-    "first digit (._5); a separator after a sign that follows the first digit (1e+_5, 1+_5j); separators in a text without any digit "
+    "+Inf +NaN -NaN; Infinity; inf/nan in another case inside a complex literal; bare j/J; a separator after a sign that follows the first digit (1e+_5, 1+_5j); separators in a text without any digit "
     "(Inf_); dotted identifiers with such a part",
 ]
 
